@@ -66,7 +66,42 @@ def scenarios(tier, rng):
                                       {"ops": [{"op": "list", "dir": "@A"}, restore_op(full), {"op": "solve", "k": 2}, {"op": "wait"}],
                                        "shim_kill": n},
                                       {"ops": after_kill(full)}], shim_log=True))
+    # the same with the process's temporary directory on ANOTHER file system than the checkpoint directory (a rename
+    # across file systems is a copy: whatever is moved into the directory from there is written in place)
+    other = other_fs_tmp()
+    if other:
+        for kind, pname in ([("VI", "forest")] if tier == "quick" else [("VI", "forest"), ("RVI", "hendrix"), ("PI", "de_moor")]):
+            pspec, full = P[pname]
+            for n in ([1, 2, 3] if tier == "quick" else [1, 2, 3, 4, 5, 6]):
+                out.append(base_scenario(f"{kind}-{pname}-kill-while-restoring-fs{n}-tmp-on-other-fs", kind, pname, pspec, full,
+                                         1, 2, False,
+                                         [{"ops": [{"op": "new"}, {"op": "solve", "k": 4}, {"op": "wait"}, {"op": "list", "dir": "@A"}]},
+                                          {"ops": [{"op": "list", "dir": "@A"}, restore_op(full), {"op": "solve", "k": 2}, {"op": "wait"}],
+                                           "shim_kill": n},
+                                          {"ops": after_kill(full)}], shim_log=True, env={"TMPDIR": other}))
     return out
+
+
+_OTHER_TMP = []
+
+
+def other_fs_tmp():
+    """A scratch directory on a file system other than the one scenario directories live on (/dev/shm), or None."""
+    import os
+    import tempfile
+    if _OTHER_TMP:
+        return _OTHER_TMP[0]
+    path = None
+    try:
+        if os.path.isdir("/dev/shm") and os.stat("/dev/shm").st_dev != os.stat(tempfile.gettempdir()).st_dev:
+            path = tempfile.mkdtemp(prefix="verif-othertmp-", dir="/dev/shm")
+            import atexit
+            import shutil
+            atexit.register(shutil.rmtree, path, True)
+    except OSError:
+        path = None
+    _OTHER_TMP.append(path)
+    return path
 
 
 def run(tier):
@@ -127,4 +162,6 @@ def run(tier):
                        "instants inside a system call", "Orbax 0.12.4 / tensorstore as the environment; local POSIX file system"]
     rep.extra["machinery_retries"] = list(ckptlib.RETRIES)
     rep.extra["scenarios_skipped_reference_did_not_converge"] = list(ckptlib.SKIPPED)
+    rep.extra["temporary_directory_on_another_file_system"] = ("/dev/shm" if _OTHER_TMP and _OTHER_TMP[0] else
+                                                               "none available: those scenarios were not run")
     return rep.finish()
